@@ -23,7 +23,7 @@ RULE = ("scenario = MultiAntennaArray (1-5 antennas, delay vector all-zero / uns
 COMPONENTS = {"real": ["setigen.voltage.antenna.MultiAntennaArray / Antenna", "setigen.voltage.data_stream.DataStream / "
                        "BackgroundDataStream"], "stub": ["entropy seam (tripwire only)"]}
 ASSUMPTIONS = C10.ASSUMPTIONS
-PROBES = ["delays_argument_reused_by_caller", "complex_background", "noise_estimate_refreshed_mid_observation", "delays_omitted", "delays_all_zero", "delays_unsorted", "delays_repeated", "cache_carry_over",
+PROBES = ["background_configured_after_first_use", "delays_argument_reused_by_caller", "complex_background", "noise_estimate_refreshed_mid_observation", "delays_omitted", "delays_all_zero", "delays_unsorted", "delays_repeated", "cache_carry_over",
           "reset_between_requests", "request_just_above_max_delay", "two_pols", "rejected_request"]
 
 
@@ -62,7 +62,8 @@ def generate(rng, tier):
         return s
     bg = [src(0.9) for _ in range(pols)]
     own = [[src(0.7) for _ in range(pols)] for _ in range(n_ant)]
-    if rng.random() < 0.15:
+    bg_late = rng.random() < 0.15
+    if rng.random() < 0.15 and not bg_late:
         # complex voltages (custom complex sources) in the background and in every antenna stream
         for s_ in bg + [x for o in own for x in o]:
             s_["customs"].append({"kind": "cexp", "a": rng.choice([1.0, 0.25, -2.0]), "f": rng.choice([0.5, 3.0, 40.0])})
@@ -86,9 +87,11 @@ def generate(rng, tier):
             ops.append({"op": "add_time", "t": rng.choice([0.0, 0.5, 2.0]) if dyadic else rng.choice([0.0, 0.1, 2.5])})
         else:
             ops.append({"op": "reset_start"})
+    if bg_late:
+        ops.insert(rng.randint(0, len(ops)), {"op": "configure_bg"})
     return {"seams": {"entropy_salt": rng.randrange(1 << 20), "scratch": "c15"},
             "cfg": {"n_ant": n_ant, "delays": delays, "np_ints": np_ints, "pols": pols, "fs": fs, "fch1": fch1,
-                    "ascending": ascending, "t_start": t_start, "seed": gen_seed(rng), "dyadic": dyadic,
+                    "ascending": ascending, "t_start": t_start, "seed": gen_seed(rng), "dyadic": dyadic, "bg_late": bg_late,
                     "bg": bg, "own": own},
             "ops": ops}
 
@@ -177,10 +180,14 @@ def execute(sc, ctx):
     scfg = {"fs": cfg["fs"], "fch1": cfg["fch1"], "ascending": cfg["ascending"], "t_start": cfg["t_start"]}
     bg_streams = list(arr.bg_streams)
     own_streams = [list(a.streams) for a in arr.antennas]
-    bg_refs = [C10.RefStream(scfg, cfg["bg"][p], copy.deepcopy(bg_streams[p].rng.bit_generator.state)) for p in range(pols)]
+    late = bool(cfg.get("bg_late"))
+    empty_src = {"noise": None, "chirps": [], "customs": []}
+    bg_refs = [C10.RefStream(scfg, dict(empty_src) if late else cfg["bg"][p], copy.deepcopy(bg_streams[p].rng.bit_generator.state))
+               for p in range(pols)]
     own_refs = [[C10.RefStream(scfg, cfg["own"][a][p], copy.deepcopy(own_streams[a][p].rng.bit_generator.state))
                  for p in range(pols)] for a in range(n_ant)]
-    C10.add_sources(bg_streams, {"sources": cfg["bg"]})
+    if not late:
+        C10.add_sources(bg_streams, {"sources": cfg["bg"]})
     for a in range(n_ant):
         C10.add_sources(own_streams[a], {"sources": cfg["own"][a]})
     bgbuf = [np.zeros(0) for _ in range(pols)]
@@ -259,6 +266,16 @@ def execute(sc, ctx):
             ctx.hit("noise_estimate_refreshed_mid_observation" if not first else "noise_estimate_refreshed_before_observation")
             ctx.check((st.t_start, st.start_obs) == before, "clock", "C15/clock/update_noise_moves_clock",
                       lambda: "before %r after %r" % (before, (st.t_start, st.start_obs)))
+        elif op["op"] == "configure_bg":
+            # the shared background is only given its sources now, possibly after samples were already requested
+            if late:
+                C10.add_sources(bg_streams, {"sources": cfg["bg"]})
+                for p in range(pols):
+                    bg_refs[p].src = cfg["bg"][p]
+                    bg_refs[p].noise_only = cfg["bg"][p]["noise"] is not None and not cfg["bg"][p]["chirps"] and not cfg["bg"][p]["customs"]
+                late = False
+                ctx.hit("background_configured_after_first_use" if not first else "background_configured_before_first_use")
+            ctx.event("configure_bg")
         elif op["op"] == "reuse_delays_arg":
             # the caller re-uses the very array (or list) the delays were passed in for something else; the
             # array keeps the delays it was configured with
